@@ -225,6 +225,13 @@ Theorem C16_tab_directive_refuted :
 Proof. exact tab_directive_refuted. Qed.
 Print Assumptions C16_tab_directive_refuted.
 
+Theorem C16_multi_option_line_refuted :
+  both [("r", ["--index-url http://a/s --extra-index-url http://b/s"])] "r" =
+  (FOk (mkRepos ["http://a/s"] ["http://b/s"] [] false),
+   FOk (mkRepos ["http://a/s --extra-index-url http://b/s"] [] [] false)).
+Proof. exact multi_option_line_refuted. Qed.
+Print Assumptions C16_multi_option_line_refuted.
+
 (* ---- obligations on the constants generated from /repo *)
 Theorem C16_gen_obligations :
   (c16_comment_prefix = "#" /\ c16_cont = "\"%char /\ c16_include_flags = ["-r"; "--requirement"] /\
